@@ -19,7 +19,8 @@ import (
 
 type c34Case struct {
 	N    int   `json:"n"`
-	MBCV int   `json:"mbcv"` // genesis MaxBlockChangeView (small values let anybody commit after a timeout)
+	MBCV int   `json:"mbcv"`          // genesis MaxBlockChangeView (small values let anybody commit after a timeout)
+	Own  int   `json:"own,omitempty"` // ownership layout of the genesis validators, see ownerOf
 	Ops  []gop `json:"ops"`
 }
 
@@ -30,7 +31,7 @@ const (
 
 func genC34(t *rapid.T) c34Case {
 	n := rapid.IntRange(4, ev.Scale(8, 16)).Draw(t, "n")
-	c := c34Case{N: n, MBCV: rapid.SampledFrom([]int{60000, 60000, 3, 6}).Draw(t, "mbcv")}
+	c := c34Case{N: n, MBCV: rapid.SampledFrom([]int{60000, 60000, 3, 6}).Draw(t, "mbcv"), Own: rapid.SampledFrom([]int{0, 0, 0, 1, 2, 3, 4}).Draw(t, "own")}
 	variant := func(t *rapid.T) int {
 		if rapid.IntRange(0, 5).Draw(t, "variantClass") == 0 {
 			return rapid.IntRange(1, numVariant-1).Draw(t, "variant")
@@ -105,6 +106,15 @@ func genC34(t *rapid.T) c34Case {
 		}
 	}), 3, ev.Scale(40, 90)).Draw(t, "ops")
 	c.Ops = append(ops, body...)
+	for i := range c.Ops {
+		o := &c.Ops[i]
+		switch {
+		case (o.K == kQuit || o.K == kUnregCand) && o.A == o.B:
+			o.A = -1 // by the wallet that registered the peer
+		case o.K == kRegCand && o.A == o.B && c.Own != 0:
+			o.A = n + spareNodes + outsiders + o.B%2 // separate owner wallets, one wallet may own several nodes
+		}
+	}
 	return c
 }
 
@@ -125,7 +135,7 @@ func runC34(ctx *ev.Ctx, c c34Case) {
 	if mb == 0 {
 		mb = 60000
 	}
-	e := newEng(ctx, c.N, mb)
+	e := newEng(ctx, c.N, mb, c.Own)
 	m := &c34Model{black: map[string]string{}}
 	noF6 := ev.IsKnown("C34", c34F6) && !ctx.Replaying
 	noF9 := ev.IsKnown("C34", c34F9) && !ctx.Replaying
